@@ -871,3 +871,14 @@ spec!(
     forms(p, v): [p.push(v), p.push(v.clone()), p.push(v.as_slice()), p.push(PushIter(v.iter()))],
     reserve(rp, vs): [],
 );
+
+// a collapsing region directly over the crate's dictionary-coded region: merge / clear boundaries of
+// the wrapper meet an inner region whose state (the dictionary) outlives its contents
+spec!(
+    CollapseCodec, "CollapseSequence<CodecRegion<DictionaryCodec>>", CollapseSequence<CodecRegion<DictionaryCodec>>,
+    clone: no, serde: no, heap: yes, resreg: yes, copy: yes, debug: yes,
+    dense: no, collapse_top: yes, presize: no, plain: no,
+    byref(x): x.as_slice(),
+    forms(p, v): [p.push(v.as_slice())],
+    reserve(rp, vs): [],
+);
